@@ -24,6 +24,10 @@ func init() {
 			"two fields are treated as the same field only when name, alias, absence of selections, arguments and directives agree, and a selection is removed only on that verdict after its defer information was merged. " +
 			"It does not decide exec(norm(q)) == exec(q), validity preservation or idempotence (value level).",
 		Mutants: []Mutant{
+			{Name: "CopyInlineFragment shares the selection set of its source (seeded change C03-13)", File: "v2/pkg/ast/ast_inline_fragment.go", Rule: "C03-R5", Key: "Document.CopyInlineFragment/SelectionSet",
+				Old: "\t\tselectionSet = d.CopySelectionSet(d.InlineFragments[ref].SelectionSet)\n", New: "\t\tselectionSet = d.InlineFragments[ref].SelectionSet\n"},
+			{Name: "CopyDirective shares the argument list", File: "v2/pkg/ast/ast_directive.go", Rule: "C03-R5", Key: "Document.CopyDirective/Arguments",
+				Old: "\t\targuments = d.CopyArgumentList(d.Directives[ref].Arguments)\n", New: "\t\targuments = d.Directives[ref].Arguments\n"},
 			{Name: "operation callback of list coercion not registered (the repaired defect F6)", File: "v2/pkg/astnormalization/input_coercion_for_list.go", Rule: "C03-R1", Key: "wiring/inputCoercionForListVisitor.EnterOperationDefinition",
 				Old: "\twalker.RegisterEnterOperationVisitor(&visitor)\n\twalker.RegisterVariableDefinitionVisitor(&visitor)\n", New: "\twalker.RegisterVariableDefinitionVisitor(&visitor)\n"},
 			{Name: "upload paths no longer reset per document (the repaired defect F8)", File: "v2/pkg/astnormalization/variables_extraction.go", Rule: "C03-R1", Key: "state-reset/variablesExtractionVisitor.uploadsPath",
@@ -55,6 +59,7 @@ func runC03(r *fw.Run) {
 	r.Rule("C03-R1", "every astvisitor callback a normalization visitor implements is registered with its walker; per-walk slice/map state of the visitors is re-initialised in a scope-opening callback")
 	wiringObligations(r, "C03-R1", "astnorm", map[string]string{})
 	visitorStateReset(r, "C03-R1", "astnorm", map[string]string{})
+	c03DeepCopies(r)
 
 	// ---- R2 stage order --------------------------------------------------------------------------
 	r.Rule("C03-R2", "walker stages are appended in the required partial order (each constraint: rule A is applied to a walker appended strictly before the walker of rule B, or the same one where noted)")
@@ -214,4 +219,172 @@ func flattenAnd(e ast.Expr) []ast.Expr {
 		return append(flattenAnd(b.X), flattenAnd(b.Y)...)
 	}
 	return []ast.Expr{e}
+}
+
+// c03DeepCopies (R5, added after a seeded change made CopyInlineFragment share the selection set of its source): the
+// Document.Copy* functions of package ast never alias a child of the source node. In the node literal handed to an Add*
+// function, a value taken directly from the source (d.<Nodes>[ref].F, list.Refs, or a local assigned from such an
+// expression) is allowed only for flags and kind enums; everything else has to come out of a call (a copy helper).
+func c03DeepCopies(r *fw.Run) {
+	p := r.Prog
+	r.Rule("C03-R5", "the Document.Copy* functions deep-copy: every child reference / list / name placed in the new node comes from a copy helper call, never directly from the source node (flags and kind enums excepted)")
+	pk := p.Pkg("ast")
+	if pk == nil {
+		r.Error("C03-R5: package ast not loaded")
+		return
+	}
+	info := pk.TypesInfo
+	frozen := map[string]string{
+		"Document.CopyInlineFragment/TypeCondition": "refers to a Type node; normalization never rewrites Type nodes in place (the source comment says: value type, doesn't need to be copied)",
+	}
+	nFuncs, nVals := 0, 0
+	for _, fi := range p.Funcs("ast") {
+		if fi.Decl.Recv == nil || !strings.HasPrefix(fi.Name(), "Document.Copy") {
+			continue
+		}
+		sig := fi.Obj.Type().(*types.Signature)
+		// source roots: the receiver's node slices indexed by a parameter, and struct/list parameters
+		params := map[types.Object]bool{}
+		for i := 0; i < sig.Params().Len(); i++ {
+			params[sig.Params().At(i)] = true
+		}
+		recv := sig.Recv()
+		fromSource := func(e ast.Expr) bool {
+			// a selector / index chain (no calls) rooted at the receiver or at a parameter
+			for {
+				switch x := ast.Unparen(e).(type) {
+				case *ast.SelectorExpr:
+					e = x.X
+				case *ast.IndexExpr:
+					e = x.X
+				case *ast.Ident:
+					o := info.Uses[x]
+					return o != nil && (o == recv || params[o])
+				default:
+					return false
+				}
+			}
+		}
+		harmless := func(t types.Type) bool {
+			if t == nil {
+				return true
+			}
+			if b, ok := t.Underlying().(*types.Basic); ok {
+				if b.Info()&types.IsBoolean != 0 {
+					return true
+				}
+				// kind enums: named integer types of package ast that have constants
+				if n, isNamed := t.(*types.Named); isNamed && b.Info()&types.IsInteger != 0 && len(fw.ConstsOfType(pk.Types, n)) > 0 {
+					return true
+				}
+			}
+			return false
+		}
+		// direct: does the expression place source data into the copy without a call? returns the offending expr
+		var direct func(e ast.Expr, seen map[types.Object]bool) ast.Expr
+		direct = func(e ast.Expr, seen map[types.Object]bool) ast.Expr {
+			e = ast.Unparen(e)
+			switch x := e.(type) {
+			case *ast.CallExpr:
+				if fw.Builtin(info, x) == "append" {
+					for _, a := range x.Args[1:] {
+						if bad := direct(a, seen); bad != nil {
+							return bad
+						}
+					}
+				}
+				return nil
+			case *ast.CompositeLit:
+				for _, el := range x.Elts {
+					v := el
+					if kv, ok := el.(*ast.KeyValueExpr); ok {
+						v = kv.Value
+					}
+					if bad := direct(v, seen); bad != nil {
+						return bad
+					}
+				}
+				return nil
+			case *ast.Ident:
+				o := info.Uses[x]
+				if o == nil || seen[o] || params[o] && !fromSource(x) {
+					return nil
+				}
+				if params[o] {
+					if harmless(info.TypeOf(x)) {
+						return nil
+					}
+					return x
+				}
+				if _, isVar := o.(*types.Var); !isVar || o.Parent() == o.Pkg().Scope() {
+					return nil
+				}
+				seen[o] = true
+				var bad ast.Expr
+				fw.WalkAll(fi.Decl.Body, func(nd ast.Node) bool {
+					switch as := nd.(type) {
+					case *ast.AssignStmt:
+						for i, l := range as.Lhs {
+							if id, ok := l.(*ast.Ident); ok && (info.Defs[id] == o || info.Uses[id] == o) && i < len(as.Rhs) && bad == nil {
+								bad = direct(as.Rhs[i], seen)
+							}
+						}
+					case *ast.RangeStmt:
+						for _, kv := range []ast.Expr{as.Key, as.Value} {
+							if id, ok := kv.(*ast.Ident); ok && info.Defs[id] == o && bad == nil && fromSource(as.X) && !harmless(info.TypeOf(id)) {
+								bad = as.X
+							}
+						}
+					}
+					return true
+				})
+				return bad
+			}
+			if fromSource(e) && !harmless(info.TypeOf(e)) {
+				return e
+			}
+			return nil
+		}
+		counted := false
+		fw.WalkAll(fi.Decl.Body, func(nd ast.Node) bool {
+			c, ok := nd.(*ast.CallExpr)
+			if !ok {
+				return true
+			}
+			fn := fw.Callee(info, c)
+			if fn == nil || !strings.HasPrefix(fn.Name(), "Add") || len(c.Args) != 1 {
+				return true
+			}
+			lit, ok := ast.Unparen(c.Args[0]).(*ast.CompositeLit)
+			if !ok {
+				return true
+			}
+			if !counted {
+				counted = true
+				nFuncs++
+			}
+			for _, el := range lit.Elts {
+				kv, ok := el.(*ast.KeyValueExpr)
+				if !ok {
+					continue
+				}
+				fname := types.ExprString(kv.Key)
+				key := fi.Name() + "/" + fname
+				nVals++
+				if why, ok := frozen[key]; ok {
+					r.Pass("C03-R5", key, p.Pos(kv.Pos()), fname+" in "+fi.Name()+" (frozen: "+why+")", false)
+					continue
+				}
+				bad := direct(kv.Value, map[types.Object]bool{})
+				detail := ""
+				if bad != nil {
+					detail = "the copy's " + fname + " is taken directly from the source (" + types.ExprString(bad) + ") instead of being copied: both nodes now share that child, so a rewrite at one place (merging selections, removing a directive, renaming) silently changes the other — e.g. a fragment inlined at two sites leaks a merge done at one site into the other"
+				}
+				r.Check(bad == nil, "C03-R5", key, p.Pos(kv.Pos()), fname+" of the node built by "+fi.Name()+" is a fresh copy", detail)
+			}
+			return true
+		})
+	}
+	r.Expect("C03-R5", "Document.Copy* functions that build a node", nFuncs, 15)
+	r.Expect("C03-R5", "fields of copied nodes", nVals, 30)
 }
